@@ -994,14 +994,14 @@ TClause = _TClause()
 
 @fn("pysat.formula.WCNF", tb="TB-sat")
 def _wcnf(ex, args, kwargs, node):
-    ref = ex.st.alloc({"kind": "solver", "A": L.FULL, "pushed": [], "base": None, "wcnf": True})
+    ref = ex.st.alloc({"kind": "solver", "A": L.FULL, "pushed": [], "base": None, "wcnf": True, "soft": z3.EmptySet(Clause)})
     return VRef(ref, TSolverT)
 
 
 @meth("Solver", "copy", tb="TB-sat")
 def _wcnf_copy(ex, s, args, kwargs, node):
     o = ex.st.obj(s.ref)
-    ref = ex.st.alloc({"kind": "solver", "A": o["A"], "pushed": [], "base": None, "wcnf": True})
+    ref = ex.st.alloc({"kind": "solver", "A": o["A"], "pushed": [], "base": None, "wcnf": True, "soft": o.get("soft", z3.EmptySet(Clause))})
     return VRef(ref, TSolverT)
 
 
@@ -1010,9 +1010,12 @@ def _wcnf_append(ex, s, args, kwargs, node):
     (c,) = args
     if not isinstance(c, VClause):
         raise Unsupported("WCNF.append of a non-clause")
-    if "weight" in kwargs:
-        return VNone()  # soft clause: the admitted worlds do not change
     o = ex.st.obj(s.ref)
+    if "weight" in kwargs:
+        # soft clause: the admitted worlds do not change; the clause is recorded (set `soft`)
+        if "soft" in o:
+            ex.st.update(s.ref, soft=z3.SetAdd(o["soft"], c.t))
+        return VNone()
     ex.st.update(s.ref, A=L.inter(o["A"], Dc(c.t)))
     return VNone()
 
